@@ -7,6 +7,13 @@ ROOT = os.path.dirname(os.path.dirname(os.path.abspath(__file__)))
 ALL = ["C%02d" % i for i in range(1, 20)]
 
 CHECKS = {
+    "C13": {
+        "spec": "specs/Daemon.tla + DaemonTrace.tla",
+        "text": "Daemon.tla models the process: boot, loading the configuration inside the running loop (elements constructed last to first), fatal load errors, the service loop starting every service once, heartbeats, a failing service, SIGINT with cancellation of the coroutine services, exit codes. TLC checks ExactlyOnce, ConstructedInRunningLoop, SigintGraceful, ErrorsExitNonZero and ExitZeroOnlyAfterSigint on the model and emits every case (YAML with !Tag/__type__ elements and optional logging section, Python module with >>, unknown extension; seven kinds of configuration error; head service flavour; plain or service middle element; which service fails; SIGINT); each case is rendered to a file and run as a real `python -m cobald.daemon` process whose fixture elements write an event file; events, exit status and the runtime log are validated by TLC, including NeverIdle (a process that should have exited but is still up).",
+        "note": "bounded real-time observation (two heartbeats per service before SIGINT; 10 s limit); fixture pipeline elements; the error must be written by the logging system (log target or logging section), stderr does not count.",
+        "design": "5/C13, 4.2",
+        "technique": "TLA+ model checking (TLC) + TLC-enumerated configurations run as real daemon processes + trace validation",
+    },
     "C03": {
         "spec": "specs/Runtime.tla + RuntimeTrace.tla",
         "text": 'Same specification and pipeline as C01 for AtMostOnce, AdoptReturnsNone, ExactlyOnce (liveness on the model, observed at quiescence), RightFlavour and ArgsExact: flavour assignments of three payloads with argument tuples/dicts, one queued before start and two adopted afterwards from a thread or from inside payloads of each flavour, 0..2 services (one falsy) created before/after start from any context, optional racing shutdown; targeted scripts adopt every flavour while the runtime is closing (several delays) and let several threads queue the first pre-start payloads at the same instant.',
@@ -136,7 +143,7 @@ CHECKS = {
     },
 }
 
-NOT_BUILT = "check not built yet in this round (planned: DESIGN.md section 5)"
+NOT_BUILT = "not claimed"
 
 
 def main():
